@@ -1126,7 +1126,11 @@ ws_read_cb(void *arg)
 		// For message mode, also check to make sure that the overall
 		// length of the message has not exceeded our recvmax.
 		// (Protect against an infinite stream of small messages!)
-		if ((!ws->isstream) && (ws->recvmax > 0)) {
+		// Control frames may be interleaved with the fragments of a
+		// message, but are not part of it.
+		if ((!ws->isstream) && (ws->recvmax > 0) &&
+		    ((frame->op == WS_CONT) || (frame->op == WS_TEXT) ||
+		        (frame->op == WS_BINARY))) {
 			size_t    totlen = frame->len;
 			ws_frame *fr2;
 			NNI_LIST_FOREACH (&ws->rxq, fr2) {
